@@ -16,12 +16,253 @@ Case line / output formats: /verif/ocaml/drv_pipeline.ml.  The part of a Y event
 emitted in that cycle) is filled in by `render` from the output of the cluster probe (phase 1 of the check).
 
 The oracle (`Oracle`) recomputes from the EVENTS ALONE - bytes, scripted broker answers, clock - what the end-to-end
-statements demand of every status reply; it shares no code with the Coq model (its commit decoder is wiregen.strict_commit,
+statements demand of every status reply; it shares no code with the Coq model (its commit decoder is strict_commit below,
 its reading of a cluster cycle is the text of C11/C12)."""
 import struct
 
+import sys
+
 import clustergen
-import wiregen
+
+try:                      # only the hostile byte stream is borrowed from the wire layer, and only if it still looks the same
+    import wiregen as _wiregen
+except Exception:         # pragma: no cover
+    _wiregen = None
+
+
+# ------------------------------------------------------------------------------------------------
+# PIPE's OWN pattern pool, message encoders and strict commit reader.  They used to be imported from wiregen.py (another
+# builder's file): when that pool grew by one entry the pipeline probe / driver tables no longer matched and the check
+# failed on the unchanged tree.  The tables below are mirrored in probes/pipeline (vpPatterns) and ocaml/drv_pipeline.ml
+# (pat_match / is_set) and nowhere else.
+# ------------------------------------------------------------------------------------------------
+PATTERNS = ["", "^a", "b$", ".*", "^$", "^(a|b)", "x", ""]
+EMPTY = 7          # the list key is PRESENT with the empty string as its value: no list at all (the modules test `!= ""`)
+NPAT = len(PATTERNS)
+
+
+def is_set(idx):
+    return idx not in (0, EMPTY)
+
+
+def pat_match(idx, g):
+    if idx == 1:
+        return g[:1] == b"a"
+    if idx == 2:
+        return g[-1:] == b"b"
+    if idx == 3:
+        return True
+    if idx == 4:
+        return g == b""
+    if idx == 5:
+        return g[:1] in (b"a", b"b")
+    if idx == 6:
+        return b"x" in g
+    raise ValueError("pattern index %r outside PIPE's pool" % (idx,))
+
+
+def accept(allow, deny, g):
+    return (not is_set(allow) or pat_match(allow, g)) and not (is_set(deny) and pat_match(deny, g))
+
+
+def rnd_lists(rng):
+    """(allow, deny) settings: 0 = key absent, 1..6 = a pattern, 7 = key present with the empty string"""
+    r = rng.random()
+    if r < 0.45:
+        return 0, 0
+    if r < 0.53:
+        return rng.choice([(EMPTY, 0), (0, EMPTY), (EMPTY, EMPTY)])
+    if r < 0.6:
+        return rng.choice([(EMPTY, rng.randrange(1, EMPTY)), (rng.randrange(1, EMPTY), EMPTY)])
+    if r < 0.77:
+        return rng.randrange(1, EMPTY), 0
+    if r < 0.9:
+        return 0, rng.randrange(1, EMPTY)
+    return rng.randrange(1, EMPTY), rng.randrange(1, EMPTY)
+
+
+def check_lists(case):
+    """fails loudly at generation / rendering time if a case carries a list setting PIPE's tables do not know"""
+    cf = case["config"]
+    for v in [cf["sallow"], cf["sdeny"]] + [x for cl in case["clusters"] for x in cl[1:]]:
+        if not (isinstance(v, int) and 0 <= v < NPAT):
+            raise ValueError("list setting %r outside PIPE's pattern pool (0..%d): pipegen.py, probes/pipeline and "
+                             "ocaml/drv_pipeline.ml must be extended together" % (v, NPAT - 1))
+
+
+_warned = []
+
+
+def foreign_pool_note():
+    """a note (not a failure: PIPE no longer depends on it) when the wire layer's pool differs from PIPE's"""
+    if _wiregen is None:
+        return "wiregen.py could not be imported; the hostile stream is PIPE's own"
+    theirs = getattr(_wiregen, "PATTERNS", None)
+    if theirs != PATTERNS:
+        msg = "wiregen.PATTERNS = %r differs from PIPE's pinned pool %r (harmless for PIPE; extend PIPE's three tables " \
+              "together if the new settings should be exercised end to end)" % (theirs, PATTERNS)
+        if not _warned:
+            _warned.append(msg)
+            print("PIPE: " + msg, file=sys.stderr)
+        return msg
+    return None
+
+
+class _W:
+    def __init__(self):
+        self.b = bytearray()
+
+    def i16(self, v):
+        self.b += struct.pack(">h", v)
+
+    def i32(self, v):
+        self.b += struct.pack(">i", v)
+
+    def i64(self, v):
+        self.b += struct.pack(">q", v)
+
+    def string(self, s):
+        if s is None:
+            self.i16(-1)
+        else:
+            self.i16(len(s))
+            self.b += s
+
+    def bytes_(self, s):
+        if s is None:
+            self.i32(-1)
+        else:
+            self.i32(len(s))
+            self.b += s
+
+
+def enc_offset(f):
+    """OffsetCommitKey v0/v1 + OffsetCommitValue v0/v1/v3 (written from the Kafka schemas).
+    f: dict(keyver, group, topic, partition, valver ('T' = tombstone), offset, epoch, metadata, ts, expire)"""
+    k = _W()
+    k.i16(f["keyver"])
+    k.string(f["group"])
+    k.string(f["topic"])
+    k.i32(f["partition"])
+    v = _W()
+    if f["valver"] != "T":
+        v.i16(f["valver"])
+        v.i64(f["offset"])
+        if f["valver"] == 3:
+            v.i32(f["epoch"])
+        v.string(f["metadata"])
+        v.i64(f["ts"])
+        if f["valver"] == 1:
+            v.i64(f["expire"])
+    return bytes(k.b), bytes(v.b)
+
+
+def enc_meta(f):
+    """GroupMetadataKey + GroupMetadataValue v0..v3 with ConsumerProtocolAssignment members.
+    f: dict(group, valver ('T' = tombstone), ptype, generation, protocol, leader, statets, members=[...])"""
+    k = _W()
+    k.i16(2)
+    k.string(f["group"])
+    v = _W()
+    if f["valver"] != "T":
+        ver = f["valver"]
+        v.i16(ver)
+        v.string(f["ptype"])
+        v.i32(f["generation"])
+        v.string(f["protocol"])
+        v.string(f["leader"])
+        if ver >= 2:
+            v.i64(f["statets"])
+        v.i32(len(f["members"]))
+        for m in f["members"]:
+            v.string(m["id"])
+            if ver == 3:
+                v.string(m["instance"])
+            v.string(m["clientid"])
+            v.string(m["host"])
+            if ver >= 1:
+                v.i32(m["rebalance"])
+            v.i32(m["session"])
+            v.bytes_(m["subscription"])
+            a = m["assignment"]
+            if a is None:
+                v.i32(-1)
+            elif a == "E":
+                v.i32(0)
+            else:
+                sub = _W()
+                sub.i16(a["ver"])
+                sub.i32(len(a["topics"]))
+                for name, parts in a["topics"]:
+                    sub.string(name)
+                    sub.i32(len(parts))
+                    for p in parts:
+                        sub.i32(p)
+                sub.bytes_(a["userdata"])
+                v.i32(len(sub.b))
+                v.b += sub.b
+    return bytes(k.b), bytes(v.b)
+
+
+class Short(Exception):
+    pass
+
+
+class Rd:
+    def __init__(self, b):
+        self.b, self.i = b, 0
+
+    def take(self, n):
+        if n < 0 or self.i + n > len(self.b):
+            raise Short()
+        r = self.b[self.i:self.i + n]
+        self.i += n
+        return r
+
+    def i16(self):
+        return struct.unpack(">h", self.take(2))[0]
+
+    def i32(self):
+        return struct.unpack(">i", self.take(4))[0]
+
+    def i64(self):
+        return struct.unpack(">q", self.take(8))[0]
+
+    def string(self):
+        n = self.i16()
+        if n == -1:
+            return b""
+        if n < 0:
+            raise Short()
+        return self.take(n)
+
+
+def strict_commit(key, value):
+    """(group, topic, partition, offset, timestamp) of an offset commit every field of which Burrow reads is completely
+    present with a possible length (key v0/v1; value v0/v1: offset, metadata, timestamp; v3: + leader epoch), else None.
+    Written from the property text / Kafka schemas; shares nothing with the Coq model."""
+    try:
+        k = Rd(key)
+        if k.i16() not in (0, 1):
+            return None
+        g, t, p = k.string(), k.string(), k.i32()
+        v = Rd(value)
+        ver = v.i16()
+        if ver in (0, 1):
+            off = v.i64()
+            v.string()
+            ts = v.i64()
+        elif ver == 3:
+            off = v.i64()
+            v.i32()
+            v.string()
+            ts = v.i64()
+        else:
+            return None
+        return (g, t, p, off, ts)
+    except Short:
+        return None
+
 
 U64 = 2 ** 64
 I64MAX = 2 ** 63 - 1
@@ -80,6 +321,7 @@ def cluster_lines(case):
 
 def render(case, cluster_out):
     """cluster_out: {cluster id: parsed output of the cluster probe (clustergen.parse_out)}"""
+    check_lists(case)
     cf = case["config"]
     toks = ["pipe", str(cf["intervals"]), str(cf["expire"]), str(cf["mindist"]), str(cf["minimum"]), str(cf["allowed"]),
             str(cf["now0"]), str(cf["sallow"]), str(cf["sdeny"]), str(len(case["clusters"]))]
@@ -159,7 +401,7 @@ def _commit_msg(group, topic, partition, offset, ts, rng):
     f = dict(keyver=rng.choice([0, 1]), group=group, topic=topic, partition=partition,
              valver=rng.choice([0, 1, 3]), offset=offset, epoch=rng.choice([0, -1, 7]),
              metadata=rng.choice([None, b"", b"meta"]), ts=ts, expire=rng.choice([0, ts + 86400000 if abs(ts) < 2 ** 62 else 0]))
-    key, value, _, _ = wiregen.enc_offset(f)
+    key, value = enc_offset(f)
     return key, value
 
 
@@ -190,16 +432,70 @@ def _meta_msg(group, rng, topics_np):
     f = dict(group=group, valver=rng.choice([0, 1, 2, 3]), ptype=b"consumer" if rng.random() < 0.9 else rng.choice([b"connect", b"", None]),
              generation=rng.randrange(0, 100), protocol=rng.choice([b"range", None, b""]), leader=rng.choice([b"m0", None]),
              statets=rng.randrange(0, 2 ** 40), members=members)
-    key, value, _, _ = wiregen.enc_meta(f)
+    key, value = enc_meta(f)
     return key, value
 
 
+def _own_hostile(rng):
+    """structure-aware damage to a small well-formed message of PIPE's own encoders, or plain random bytes"""
+    r = rng.random()
+    if r < 0.15:
+        key = bytearray(rng.randrange(0, 256) for _ in range(rng.randrange(0, 40)))
+        value = bytes(rng.randrange(0, 256) for _ in range(rng.randrange(0, 120)))
+        if key and rng.random() < 0.7:
+            key[0] = 0
+            if len(key) > 1:
+                key[1] = rng.choice([0, 1, 2, 2, 2])
+        return bytes(key), value, "hostile:random"
+    g = rng.choice(GROUPS + ODD_GROUPS)
+    if rng.random() < 0.5:
+        key, value = _commit_msg(g, rng.choice([b"t1", b"t2", b"topic", None]), rng.randrange(0, 4), rng.randrange(0, 10 ** 6),
+                                 NOW0 * 1000, rng)
+    else:
+        key, value = _meta_msg(g, rng, {1: 3, 2: 2})
+    key, value = bytearray(key), bytearray(value)
+    if r < 0.35:
+        if rng.random() < 0.3 and key:
+            return bytes(key[:rng.randrange(0, len(key))]), bytes(value), "hostile:truncate-key"
+        return bytes(key), bytes(value[:rng.randrange(0, len(value))]) if value else b"", "hostile:truncate-value"
+    if r < 0.5:
+        buf = key if rng.random() < 0.4 or not value else value
+        if len(buf) >= 2:
+            buf[0:2] = struct.pack(">h", rng.choice([-1, 0, 1, 2, 3, 4, 5, 256]))
+        return bytes(key), bytes(value), "hostile:version"
+    # overwrite a 2- or 4-byte field somewhere with a length-like special value
+    buf = key if rng.random() < 0.25 or not value else value
+    for _ in range(1 if rng.random() < 0.85 else 2):
+        w = rng.choice([2, 4])
+        if len(buf) >= w:
+            pos = rng.randrange(0, len(buf) - w + 1)
+            rem = len(buf) - pos - w
+            v = rng.choice([-2, -1, 0, 1, rem - 1, rem, rem + 1, 32767, 2 ** 31 - 1, -2 ** 31, rem // 4 + 1, rem // 6 + 1, 65536])
+            if w == 2:
+                buf[pos:pos + 2] = struct.pack(">h", ((v + 2 ** 15) % 2 ** 16) - 2 ** 15)
+            else:
+                buf[pos:pos + 4] = struct.pack(">i", ((v + 2 ** 31) % 2 ** 32) - 2 ** 31)
+    if rng.random() < 0.15 and value:
+        value = value[:rng.randrange(0, len(value) + 1)]
+    return bytes(key), bytes(value), "hostile:field"
+
+
 def _hostile(rng):
-    line, tags = wiregen.gen_hostile(rng)
-    f = line.split()
-    key = bytes.fromhex(f[-2]) if f[-2] != "-" else b""          # "msg ... <keyhex> <valuehex>"
-    value = bytes.fromhex(f[-1]) if f[-1] != "-" else b""
-    return key, value, "hostile:" + tags[-1].split(":")[0]
+    """PIPE's own hostile stream; every second message is taken from the wire layer's C06 stream as long as that generator
+    still returns a line ending in <keyhex> <valuehex> (a foreign format change falls back to the own stream instead of
+    breaking the check; the random numbers drawn are the own stream's either way, so cases stay reproducible per seed)"""
+    own = _own_hostile(rng)
+    if _wiregen is not None and rng.random() < 0.5:
+        try:
+            sub = rng.__class__(rng.getrandbits(64))
+            line, tags = _wiregen.gen_hostile(sub)
+            f = line.split()
+            key = bytes.fromhex(f[-2]) if f[-2] != "-" else b""
+            value = bytes.fromhex(f[-1]) if f[-1] != "-" else b""
+            return key, value, "hostile:wire-" + str(tags[-1]).split(":")[0]
+        except Exception:
+            return own
+    return own
 
 
 PAR_PREFIX = [b"pa", b"a-p", b"xp", b"bp", b"p"]
@@ -254,10 +550,10 @@ def gen_case(rng, focus=None):
         cf["expire"] = rng.choice([300, 60, 3600])
     ncl = 1 if rng.random() < 0.75 else 2
     if focus == "lists" or rng.random() < 0.15:
-        cf["sallow"], cf["sdeny"] = wiregen.rnd_lists(rng)
-        clusters = [(c,) + tuple(wiregen.rnd_lists(rng)) for c in range(1, ncl + 1)]
+        cf["sallow"], cf["sdeny"] = rnd_lists(rng)
+        clusters = [(c,) + tuple(rnd_lists(rng)) for c in range(1, ncl + 1)]
         if focus == "lists" and (cf["sallow"], cf["sdeny"]) == (0, 0) and all(cl[1:] == (0, 0) for cl in clusters):
-            clusters[0] = (1, rng.randrange(1, 7), rng.randrange(0, 7))
+            clusters[0] = (1, rng.randrange(1, EMPTY), rng.randrange(0, NPAT))
     else:
         clusters = [(c, 0, 0) for c in range(1, ncl + 1)]
     scen = {}
@@ -432,7 +728,9 @@ def gen_case(rng, focus=None):
             events.append(("S", c, g, rng.randrange(0, 2)))
         if rng.random() < 0.5:
             events.append(("L", c))
-    return dict(config=cf, clusters=clusters, events=events, tags=tags)
+    case = dict(config=cf, clusters=clusters, events=events, tags=tags)
+    check_lists(case)
+    return case
 
 
 # ------------------------------------------------------------------------------------------------
@@ -491,7 +789,7 @@ class Oracle:
 
     def visible(self, c, g):
         a, d = self.lists[c]
-        return wiregen.accept(a, d, g) and wiregen.accept(self.cf["sallow"], self.cf["sdeny"], g)
+        return accept(a, d, g) and accept(self.cf["sallow"], self.cf["sdeny"], g)
 
     # -- ingest -------------------------------------------------------------------------------
     def cycle(self, c, cyc):
@@ -527,13 +825,13 @@ class Oracle:
         if len(key) >= 2 and key[:2] == b"\x00\x02" and value == b"":
             # group tombstone: the group is deleted (reader lists permitting)
             try:
-                g = wiregen.Rd(key[2:]).string()
-            except wiregen.Short:
+                g = Rd(key[2:]).string()
+            except Short:
                 return
-            if wiregen.accept(a, d, g):
+            if accept(a, d, g):
                 st.groups.pop(g, None)
             return
-        cm = wiregen.strict_commit(key, value)
+        cm = strict_commit(key, value)
         if cm is None:
             return                                            # not a well-formed commit: no effect on commits
         g, t, p, off, ts = cm
@@ -577,7 +875,7 @@ class Oracle:
             for a in (full, filt):
                 if a["found"]:
                     fails.append("%s: group %r is rejected by the %s lists but a status was served" %
-                                 (where, g, "reader's" if not wiregen.accept(*self.lists[c], g) else "storage's"))
+                                 (where, g, "reader's" if not accept(*self.lists[c], g) else "storage's"))
             return fails
         if full["found"] != filt["found"]:
             fails.append("%s: the two views disagree on whether the group exists" % where)
@@ -712,7 +1010,7 @@ def describe(case):
         if ev[0] == "T":
             out.append("T now=%d" % ev[1])
         elif ev[0] == "K":
-            cm = wiregen.strict_commit(ev[3], ev[4])
+            cm = strict_commit(ev[3], ev[4])
             out.append("K cluster=k%d position=%d key=%s value=%s [%s%s]" % (ev[1], ev[2], hx(ev[3]), hx(ev[4]), ev[5],
                        "" if cm is None else ": group %r topic %r partition %d offset %d ts %d" % cm))
         elif ev[0] == "Y":
@@ -725,7 +1023,7 @@ def describe(case):
             out.append("P cluster=k%d concurrently, one goroutine per list:" % ev[1])
             for i, lst in enumerate(ev[2]):
                 for (o, k, v, tag) in lst:
-                    cm = wiregen.strict_commit(k, v)
+                    cm = strict_commit(k, v)
                     out.append("    goroutine %d: position=%d key=%s value=%s [%s%s]" % (i, o, hx(k), hx(v), tag,
                                "" if cm is None else ": group %r topic %r partition %d offset %d ts %d" % cm))
     return out
